@@ -12,17 +12,15 @@ def run(ctx):
     if not q:
         c.tlc_l1(ctx, "ProofGraph.tla", "MC_ProofGraph_big.cfg", workers=8, timeout=1500, xmx="12g")
     # L2: every transition of the lock-step graph replayed on the real ProofGraph
-    plan = [("Gen_ProofGraph.cfg", {"NH": 3}, 300, 9, 3)] if q else \
-           [("Gen_ProofGraph.cfg", {"NH": 3}, 3000, 9, 4), ("Gen_ProofGraph_4.cfg", {"NH": 4}, 20000, 9, 3)]
-    for cfg, cfgobj, walks, wl, ah in plan:
-        edges = ctx.path(cfg + ".edges")
-        g = c.tlc_gen(ctx, "ProofGraph.tla", cfg, edges, cfgobj=cfgobj, timeout=1500)
-        r = c.replay(ctx, "proof_graph", edges, walks=walks, walklen=wl, allhist=ah)
-        c.log("  %s: %d edges / %d states; %d behaviours, %d steps, %d failures" % (
-            cfg, g["edges"], g["states"], r["behaviours"], r["steps"], r["failures_n"]))
+    M = "ProofGraph.tla"
+    if q:
+        c.graph_leg(ctx, M, "proof_graph", "Gen_ProofGraph_d5.cfg", {"NH": 3}, 300, 9, 3, "Sim_ProofGraph.cfg", 1500, 10)
+    else:
+        c.graph_leg(ctx, M, "proof_graph", "Gen_ProofGraph_d5.cfg", {"NH": 3}, 3000, 9, 4, "Sim_ProofGraph.cfg", 30000, 10)
+        c.graph_leg(ctx, M, "proof_graph", "Gen_ProofGraph_4.cfg", {"NH": 4}, 3000, 9, 3, "Sim_ProofGraph_4.cfg", 30000, 10, timeout=3000)
     ctx.cov["rule"] = ("behaviours = shortest path + one edge for every (state,label) of the TLC-dumped lock-step graph "
-                       "(ideal x as-built ProofGraph), all op sequences to the all-histories depth, seeded random walks "
-                       "to 9 ops; distinct = distinct label sequences; every behaviour has >=1 insert_proof/invalidate and "
+                       "(ideal x as-built ProofGraph), all op sequences to the all-histories depth, seeded random walks, "
+                       "TLC-simulated behaviours of 9 ops; distinct = distinct label sequences; every behaviour has >=1 insert_proof/invalidate and "
                        "the observation (is_proven, lookup_by_key, node.valid for every handle) is compared after every op")
     ctx.assumptions += ["a handle that was invalidated directly, or that is a cached proof without live justification, "
                         "is never used as premise of a later insertion (guard CanInsert, from the property's quantifier)",
